@@ -4,12 +4,13 @@ import itertools
 from . import core
 
 PID = "C17"
-MANIFEST = dict(text="Theorems reachable_invariant / ops_refine / views_agree / spec_meaning: for every initial pair list and every "
+MANIFEST = dict(text="Theorems reachable_invariant / ops_refine / views_agree / spec_meaning / query_roundtrip: for every initial pair list and every "
              "operation sequence the dict+list representation of MutableMultiMapping refines a plain ordered pair list and all views "
              "agree with it; the model (dict as ordered association list, MutableMapping mix-in methods) is compared with the live "
              "class on all operation sequences up to length 2 (thorough 3) from all small initial lists plus random long sequences.",
         note="Modelled, not verified: Python dict ordering, the collections.abc.MutableMapping mix-in. "
-             "query_roundtrip (parse_qsl/urlencode) is covered by the correspondence and oracle only in this version.",
+             "query_roundtrip (parse_qsl inverts urlencode, ASCII keys and values) is the theorem of the URL model (C18), re-stated here; "
+             "non-ASCII query text is covered by C18's correspondence only.",
         technique="Coq proof (representation invariant by induction over operations, refinement to a list specification) + correspondence",
         ref="5/C17")
 
@@ -66,6 +67,7 @@ def cases(tier, rng):
             for o in ops:
                 yield "exhaustive", ["ops", init, [o]]
         yield "immutable-views", ["imm", init]
+    yield from qs_cases(tier, rng)
     nrand = 1500 if tier == "quick" else 20000
     for _ in range(nrand):
         init = [[rng.randrange(4), rng.randrange(3)] for _ in range(rng.randrange(0, 6))]
@@ -92,6 +94,28 @@ def cases(tier, rng):
             yield "alias", ["alias", init, [list(o)]]
         for seq in itertools.product(ops[:6], repeat=2):
             yield "alias", ["alias", init, [list(o) for o in seq]]
+
+
+QS_KEYS = ["", "a", "b c", "&", "=", "k+", "%41", "A;"]
+QS_VALS = ["", "1", "x y", "+", "%", "&=", "v#?"]
+
+
+def qs_cases(tier, rng):
+    pairs = [[k, v] for k in QS_KEYS for v in QS_VALS]
+    yield "query-string", ["qs", []]
+    for p in pairs:
+        yield "query-string", ["qs", [p]]
+    for p in pairs:
+        for q in (pairs if tier != "quick" else pairs[::5] + [["", ""], ["a", ""], ["", "1"]]):
+            yield "query-string", ["qs", [p, q]]
+    for _ in range(400 if tier == "quick" else 6000):
+        n = rng.randrange(0, 6)
+        ps = []
+        for _ in range(n):
+            k = "".join(rng.choice("ab &=+%;/?#.~-_1") for _ in range(rng.randrange(0, 4)))
+            v = "".join(rng.choice("ab &=+%;/?#.~-_1") for _ in range(rng.randrange(0, 4)))
+            ps.append([k, v])
+        yield "query-string-random", ["qs", ps]
 
 
 def search_cases(tier, rng, mism):
@@ -166,6 +190,10 @@ def apply_op(m, o):
 
 def impl(case):
     from baize.datastructures import MultiMapping, MutableMultiMapping, QueryParams, FormData
+    if case[0] == "qs":
+        q = QueryParams([tuple(p) for p in case[1]])
+        text = str(q)
+        return [text, [[k, v] for k, v in QueryParams(text).multi_items()]]
     if case[0] == "imm":
         items = [tuple(p) for p in case[1]]
         return [views(MultiMapping(items)), views(QueryParams(items)), views(FormData(items))]
@@ -247,6 +275,10 @@ def spec_views(a):
 def oracle(case, obs):
     if obs and obs[0] == "driver-exception":
         return ("raises-" + str(obs[1]), "operation sequence raised %s: %s" % (obs[1], obs[2]))
+    if case[0] == "qs":
+        if [list(p) for p in obs[1]] != [list(p) for p in case[1]]:
+            return ("query-string-roundtrip", "QueryParams(%r) prints as %r, which parses back to %r" % (case[1], obs[0], obs[1]))
+        return None
     if case[0] == "alias":
         a = [list(p) for p in case[1]]
         if len(obs) > 3:
@@ -277,6 +309,8 @@ def oracle(case, obs):
 
 
 def nontrivial(case, obs):
+    if case[0] == "qs":
+        return len(case[1]) > 0
     if case[0] == "alias":
         return len(case[2]) > 0
     if case[0] != "ops":
